@@ -1,0 +1,27 @@
+//go:build verif
+
+package runtime
+
+// VerifPoolHook observes the buffer pool in verification builds (build tag `verif`).
+// Events: "existing" (GetBuffer found a *Buffer), "acquire" (after Get+Reset), "flush" (after the
+// flush in ReleaseBuffer, with its error), "release" (immediately before Put).
+var VerifPoolHook func(ev string, b *Buffer, err error)
+
+func verifPool(ev string, b *Buffer, err error) {
+	if h := VerifPoolHook; h != nil {
+		h(ev, b, err)
+	}
+}
+
+// VerifBufferState reports the number of buffered bytes and, if nothing is buffered, the sticky
+// error of the underlying bufio.Writer (flushing an empty bufio.Writer only returns that error).
+func VerifBufferState(b *Buffer) (buffered int, sticky error) {
+	if b == nil || b.b == nil {
+		return 0, nil
+	}
+	buffered = b.b.Buffered()
+	if buffered == 0 {
+		sticky = b.b.Flush()
+	}
+	return buffered, sticky
+}
